@@ -91,7 +91,20 @@ def dist(kind, a):
 
 
 # ----------------------------------------------------------------------------- constructor oracle
-def containers(form, good, bad):
+def containers(form, good, bad, kind=None):
+    if form.startswith('long:'):       # 'long:<n>:<pos>': a list (or, n odd, a tuple) of n arrays, the one in question at <pos>, members around it
+        _, n, pos = form.split(':')
+        n, pos = int(n), int(pos)
+        g = np.asarray(good, dtype=np.float64)
+        if kind in ('se2', 'se3'):
+            others = [g * (1 + (k % 7)) for k in range(n)]
+        else:
+            others, x = [], g
+            for k in range(n):
+                others.append(x)
+                x = x @ g if k % 9 != 8 else g        # (powers of a member, restarted before rounding adds up)
+        items = others[:pos] + [bad] + others[pos + 1:]
+        return items if n % 2 == 0 else tuple(items)
     if form == 'bare':
         return bad
     if form == '[bad]':
@@ -127,8 +140,12 @@ def run_ctor(ctx, p):
         given_bad = bad.astype(object)
     if p.get('layout'):        # the same values held as a frozen / non-contiguous / Fortran-ordered array or nested lists of NumPy scalars
         given_bad = gen.layout(given_bad, p['layout'])
-    arg = containers(form, good, given_bad)
-    sig = dict(api=cname, form=form, defect=p['defect'])
+    arg = containers(form, good, given_bad, kind)
+    sig = dict(api=cname, form=form if not form.startswith('long:') else 'long', defect=p['defect'])
+    if form.startswith('long:'):
+        form = 'long'
+    if p.get('flag'):
+        sig['flag'] = p['flag']
     if p.get('layout'):
         sig['layout'] = p['layout']
     if p.get('dtype') == 'object':
@@ -160,7 +177,7 @@ def run_ctor(ctx, p):
             ctx.ood('ctor.reject')
         return
     try:
-        X = C(arg)
+        X = C(arg) if not p.get('flag') else C(arg, check=FLAG_ON[p['flag']])
     except Exception:
         ctx.ok('ctor.reject')
         ctx.cell('reject', cname, form, p['defect'], core.band(d))
@@ -186,12 +203,15 @@ def run_pred(ctx, p):
     else:
         d = dist(kind, a)
         given = a
-    f = {'isR': lambda x: base.isR(x), 'isrot': lambda x: base.isrot(x, check=True), 'ishom': lambda x: base.ishom(x, check=True),
-         'isrot2': lambda x: base.isrot2(x, check=True), 'ishom2': lambda x: base.ishom2(x, check=True),
-         'SO2.isvalid': lambda x: sm.SO2.isvalid(x, check=True), 'SE2.isvalid': lambda x: sm.SE2.isvalid(x, check=True),
-         'SO3.isvalid': lambda x: sm.SO3.isvalid(x, check=True), 'SE3.isvalid': lambda x: sm.SE3.isvalid(x, check=True),
-         'Twist3.isvalid': lambda x: sm.Twist3.isvalid(x, check=True), 'Twist2.isvalid': lambda x: sm.Twist2.isvalid(x, check=True)}[name]
+    chk = FLAG_ON[p.get('flag') or 'True']       # checking switched on by True, or by another true value (1, numpy.True_: what a comparison gives)
+    f = {'isR': lambda x: base.isR(x), 'isrot': lambda x: base.isrot(x, check=chk), 'ishom': lambda x: base.ishom(x, check=chk),
+         'isrot2': lambda x: base.isrot2(x, check=chk), 'ishom2': lambda x: base.ishom2(x, check=chk),
+         'SO2.isvalid': lambda x: sm.SO2.isvalid(x, check=chk), 'SE2.isvalid': lambda x: sm.SE2.isvalid(x, check=chk),
+         'SO3.isvalid': lambda x: sm.SO3.isvalid(x, check=chk), 'SE3.isvalid': lambda x: sm.SE3.isvalid(x, check=chk),
+         'Twist3.isvalid': lambda x: sm.Twist3.isvalid(x, check=chk), 'Twist2.isvalid': lambda x: sm.Twist2.isvalid(x, check=chk)}[name]
     sig = dict(api=name, defect=p['defect'])
+    if p.get('flag'):
+        sig['flag'] = p['flag']
     if p.get('dtype') == 'float32':
         sig['dtype'] = 'float32'
     if p.get('layout') and p['layout'] != 'npscalars':
@@ -434,7 +454,49 @@ def run_call(ctx, p):
     ctx.nontrivial('call', name, [float('%.6g' % t) for t in v])
 
 
-RUNNERS = {'dtype': run_dtype, 'ctor': run_ctor, 'pred': run_pred, 'scalar': run_scalar, 'objarg': run_objarg, 'call': run_call}
+def run_refill(ctx, p):
+    """membership is decided by the numbers an array holds when it is handed over, whatever happened to the same array object before:
+    a work array accepted once and refilled in place with a non-member (or given to another class) is judged afresh"""
+    sm = S()
+    C1, C2 = getattr(sm, p['first']), getattr(sm, p['cls'])
+    kind = p['kind']
+    buf = np.array(p['good'], dtype=np.float64)
+    bad = np.asarray(p['bad'], dtype=np.float64)
+    sig = dict(api=p['cls'], form=p['form'], defect=p['defect'], history='accepted by %s, then %s' % (
+        'the same class' if p['first'] == p['cls'] else 'another class', 'refilled in place' if p['refill'] else 'given again'))
+    try:
+        X1 = C1(buf)
+        pr1 = C1.isvalid(buf) if hasattr(C1, 'isvalid') else None
+    except Exception:
+        ctx.ood('ctor.reject')
+        return
+    if p['refill']:
+        buf[...] = bad
+    d = dist(kind, buf)
+    if d <= BAND:
+        ctx.ood('ctor.reject')
+        return
+    others = [np.array(p['good'], dtype=np.float64) for _ in range(2)]
+    arg = {'bare': buf, '[bad]': [buf], '[good,bad]': [others[0], buf], '(good,bad,good)': (others[0], buf, others[1])}[p['form']]
+    try:
+        X = C2(arg)
+    except Exception:
+        ctx.ok('ctor.reject')
+        ctx.cell('reject_refilled', p['first'], p['cls'], p['form'], p['defect'])
+    else:
+        ctx.bad('ctor.reject', dict(sig, kind='accepted_nonmember', band=core.band(d)),
+                '%s(%s) accepted an array %.3g from its group (defect %s) that had earlier been accepted by %s%s: %s' % (
+                    p['cls'], p['form'], d, p['defect'], p['first'], ' and was then refilled in place' if p['refill'] else '', core.short(buf, 300)))
+    if hasattr(C2, 'isvalid'):
+        try:
+            r = C2.isvalid(buf, check=True)
+        except Exception:
+            r = False
+        ctx.judge('predicate', not r, dict(api=p['cls'] + '.isvalid', defect=p['defect'], kind='accepts_nonmember', history=sig['history']),
+                  lambda: '%s.isvalid is True for an array %.3g from the group that was a member when first seen: %s' % (p['cls'], d, core.short(buf, 300)))
+
+
+RUNNERS = {'dtype': run_dtype, 'ctor': run_ctor, 'pred': run_pred, 'scalar': run_scalar, 'objarg': run_objarg, 'call': run_call, 'refill': run_refill}
 
 
 def REACH():
@@ -545,6 +607,7 @@ def twist_matrix(rng, dim):
     return good, bad, 'nonskew'
 
 
+FLAG_ON = {'True': True, '1': 1, 'np.True_': np.True_}
 FORMS = ['bare', '[bad]', '[good,bad]', '[bad,good]', '(good,bad,good)']
 PRED_FOR = {'SO3': ['isR', 'isrot', 'SO3.isvalid'], 'SE3': ['ishom', 'SE3.isvalid'], 'SO2': ['isR', 'isrot2', 'SO2.isvalid'],
             'SE2': ['ishom2', 'SE2.isvalid']}
@@ -608,7 +671,15 @@ def _scalar_case_for(rng, name):
         w = gen.unit_axis(rng)
         w = w / np.linalg.norm(w)
         v = gen.vec(rng, 3, 1e-3, 1e3)
-        k = rng.integers(4)
+        k = rng.integers(5)
+        if k == 4:
+            # unit translational part, but a rotational part that is neither zero nor of unit length: not a unit twist
+            w2 = gen.unit_axis(rng)
+            w2 = w2 / np.linalg.norm(w2)
+            mag = gen.logu(rng, 2e-6, 1e3)
+            if abs(mag - 1) < 2e-6:
+                mag = 0.5
+            return dict(pred=name, x=np.r_[w, w2 * mag], want=False, case='unit translational part, rotational part neither zero nor unit')
         if k == 0:
             return dict(pred=name, x=np.r_[v, w], want=True, case='unit rotational part')
         if k == 1:
@@ -620,7 +691,12 @@ def _scalar_case_for(rng, name):
     u = np.array([math.cos(th), math.sin(th)])
     u = u / np.linalg.norm(u)
     v = gen.vec(rng, 2, 1e-3, 1e3)
-    k = rng.integers(4)
+    k = rng.integers(5)
+    if k == 4:
+        mag = gen.logu(rng, 2e-6, 1e3)
+        if abs(mag - 1) < 2e-6:
+            mag = 0.5
+        return dict(pred=name, x=np.r_[u, gen.sign(rng) * mag], want=False, case='unit translational part, rotational part neither zero nor unit')
     if k == 0:
         return dict(pred=name, x=np.r_[v, gen.sign(rng)], want=True, case='unit rotational part')
     if k == 1:
@@ -649,9 +725,14 @@ def run(ctx):
                 form = 'bare'          # matrices are accepted by UnitQuaternion only as a bare array
             elif rng.random() < 0.1:
                 form = ['stacked[bad]', 'stacked[good,bad]'][rng.integers(2)]
+        if cname != 'UnitQuaternion' and not form.startswith('stacked') and rng.random() < 0.08:
+            n_ = int([8, 15, 16, 17, 32, 64, 100][rng.integers(7)])
+            form = 'long:%d:%d' % (n_, int(rng.integers(n_)))
         if rng.random() < 0.2:
             bad, defect = (valid_member(rng, kind)[0] if cname not in ('Twist2', 'Twist3') else good), 'none'
         p = dict(cls=cname, form=form, good=good, bad=bad, kind=kind, defect=defect)
+        if rng.random() < 0.15:
+            p['flag'] = ['1', 'np.True_'][rng.integers(2)]
         if rng.random() < 0.06 and defect != 'none':
             p['dtype'] = 'object'
         if rng.random() < 0.12 and cname not in ('Twist2', 'Twist3') and defect != 'none':
@@ -667,6 +748,19 @@ def run(ctx):
         drive(RUNNERS, ctx, 'ctor', p)
         if ctx.ncases % 1499 == 1:
             ctx.sample(dict(case='ctor', **p))
+    for _ in range(ctx.scale(500, 8000)):
+        cname = ['SO2', 'SE2', 'SO3', 'SE3'][rng.integers(4)]
+        form = ['bare', '[bad]', '[good,bad]', '(good,bad,good)'][rng.integers(4)]
+        good, _ = valid_member(rng, cname)
+        if rng.random() < 0.7:
+            other, _ = valid_member(rng, cname)
+            bad, defect = corrupt(rng, cname, other, mag=gen.logu(rng, 1e-5, 1.0))
+            drive(RUNNERS, ctx, 'refill', dict(first=cname, cls=cname, kind=cname, form=form, good=good, bad=bad, defect=defect, refill=True))
+        else:
+            # one 3 x 3 array object: a member of SE(2) handed to SO3 afterwards, or a member of SO(3) handed to SE2
+            first, second = [('SE2', 'SO3'), ('SO3', 'SE2')][rng.integers(2)]
+            good, _ = valid_member(rng, first)
+            drive(RUNNERS, ctx, 'refill', dict(first=first, cls=second, kind=second, form=form, good=good, bad=good, defect='member of ' + first, refill=False))
     for _ in range(ctx.scale(7000, 120000)):
         kind = ['SO2', 'SE2', 'SO3', 'SE3'][rng.integers(4)]
         a, src = valid_member(rng, kind)
@@ -682,7 +776,8 @@ def run(ctx):
                     break
         lay = gen.LAYOUTS[rng.integers(4)] if rng.random() < 0.25 else None
         for name in PRED_FOR[kind]:
-            drive(RUNNERS, ctx, 'pred', dict(pred=name, kind=kind, a=a, defect=defect, src=src, dtype=dt, layout=lay))
+            drive(RUNNERS, ctx, 'pred', dict(pred=name, kind=kind, a=a, defect=defect, src=src, dtype=dt, layout=lay,
+                                             flag=[None, None, None, '1', 'np.True_'][rng.integers(5)] if name != 'isR' else None))
     for _ in range(ctx.scale(800, 12000)):
         dim = int(rng.integers(2, 4))
         good, bad, defect = twist_matrix(rng, dim)
